@@ -85,6 +85,8 @@ def windows(name, ws, pick):
     S, En = dev(name, 1, s), dev(name, 2, e)
     gen = [S] + lookup(0x71, '/' + 'a' * 23) + lookup(0x72, '/' + 'b' * 24 + '/' + 'c' * 32 + '/' + 'd' * 29) + [undecoded('K'), En]   # 24 and 88 bytes: both fill their records exactly
     yield 'generic', gen
+    # the same window with looked-up paths made of characters that mean something to format(), %-formatting, str.format_map, regexes
+    yield 'generic-special-path', [S] + lookup(0x71, '/{0}/{x}/%s%d/{') + lookup(0x72, '/}{}/\\n/$1/[a-/(?P<x>/{{y}}/' + '{%}' * 12) + [undecoded('K'), En]
     if name in FAMILY['dyld']:
         g = E.ev('TRACE_STRING_GLOBAL', 3, data=B.global_string_chunks(0, STR_ID, '/usr/lib/x')[0][0])
         g0 = E.ev('TRACE_STRING_GLOBAL', 3, data=B.global_string_chunks(0, STR_ID, '')[0][0])
@@ -199,7 +201,7 @@ class C07(Check):
     pid = 'C07'
     level = 'fault_enumeration'
     rule = ('for each registered decoder (frozen table mc/domains.json; enum-valued words take declared members, text records '
-            'carry valid UTF-8): a generic full-context window [START, 1-record lookup, 3-record lookup (both filling their records exactly), undecoded record, END] '
+            'carry valid UTF-8): a generic full-context window [START, 1-record lookup, 3-record lookup (both filling their records exactly), undecoded record, END] (also with paths made of braces, percent signs, backslashes, regex metacharacters) '
             'and family-specific windows (dyld string announcement present/empty, DATA+STRING pairs, page fault with every '
             'ordered pair of nested real-fault kinds incl. the undecoded one, sampler windows x flag sets x stack-header flag sets, launch window, launch window with several images at one load address) x word '
             'sets {junk, failing END, zeros, all-ones, small} (quick: junk, fail, zeros) x every subset of the window dropped '
